@@ -46,6 +46,7 @@ type bhist struct {
 	send    sdk.AccAddress
 	keys    []*ecdsa.PrivateKey
 	addrIDs map[string]int64 // lower-case hex of the 20-byte address -> model id
+	strIDs  map[string]int64 // address string exactly as written at registration -> model id (collision check)
 	keyIDs  map[string]int64 // registered Pubkey blob -> model id (only the collision check looks at it)
 	relIDs  map[string]int64
 	bodyIDs map[string]int64
@@ -63,13 +64,29 @@ type bhist struct {
 
 func lower(a common.Address) string { return strings.ToLower(a.Hex()) }
 
+func spellingClass(written string, a common.Address) string {
+	switch {
+	case written == a.Hex():
+		return "checksummed-0x"
+	case !strings.HasPrefix(written, "0x") && !strings.HasPrefix(written, "0X"):
+		return "no-prefix"
+	case strings.HasPrefix(written, "0X"):
+		return "0X-prefix"
+	case written[2:] == strings.ToLower(written[2:]):
+		return "lower"
+	case written[2:] == strings.ToUpper(written[2:]):
+		return "upper"
+	}
+	return "mixed"
+}
+
 func (h *bhist) keyAddr(i int) common.Address { return crypto.PubkeyToAddress(h.keys[i].PublicKey) }
 
 func newBHist(t *testing.T, run *emit.Run) *bhist {
 	in, c := keeper.SetupFiveValChain(t)
 	ctx := sdk.UnwrapSDKContext(c).WithLogger(log.NewNopLogger())
 	in.Context = ctx
-	h := &bhist{t: t, run: run, in: in, ctx: ctx, ms: keeper.NewMsgServerImpl(in.SkywayKeeper), addrIDs: map[string]int64{}, keyIDs: map[string]int64{},
+	h := &bhist{t: t, run: run, in: in, ctx: ctx, ms: keeper.NewMsgServerImpl(in.SkywayKeeper), addrIDs: map[string]int64{}, strIDs: map[string]int64{}, keyIDs: map[string]int64{},
 		relIDs: map[string]int64{}, bodyIDs: map[string]int64{}, vers: map[uint64][]bversion{}, regAt: map[string]string{}}
 	tok, err := types.NewEthAddress(erc20)
 	if err != nil {
@@ -110,7 +127,7 @@ func newBHist(t *testing.T, run *emit.Run) *bhist {
 		var coq []string
 		for _, x := range infos {
 			a := common.HexToAddress(x.Address)
-			coq = append(coq, emit.Pair("1", emit.ZI(idOf(h.addrIDs, lower(a))), emit.ZI(idOf(h.keyIDs, hex.EncodeToString(x.Pubkey)))))
+			coq = append(coq, emit.Pair("1", emit.ZI(idOf(h.strIDs, x.Address)), emit.ZI(idOf(h.keyIDs, hex.EncodeToString(x.Pubkey))), emit.ZI(idOf(h.addrIDs, lower(a)))))
 			h.regAddr[v] = lower(a)
 		}
 		h.steps = append(h.steps, fmt.Sprintf("C06.BStep (C06.BReg %d %s) 0 [] []", v, emit.List(coq)))
@@ -361,8 +378,10 @@ func (h *bhist) opConfirm() {
 		sgb[64] += 27
 	}
 	sig := hex.EncodeToString(sgb)
+	written := spell(r, claimed)
+	h.run.Count("signer-spelling", spellingClass(written, claimed))
 	_, err = h.ms.ConfirmBatch(h.ctx, &types.MsgConfirmBatch{
-		Nonce: n, TokenContract: h.token.GetAddress().Hex(), EthSigner: claimed.Hex(), Orchestrator: keeper.AccAddrs[v].String(), Signature: sig,
+		Nonce: n, TokenContract: spell(r, h.token.GetAddress()), EthSigner: written, Orchestrator: keeper.AccAddrs[v].String(), Signature: sig,
 		Metadata: valsettypes.MsgMetadata{Creator: keeper.AccAddrs[v].String(), Signers: []string{keeper.AccAddrs[v].String()}},
 	})
 	c := confirmClass(err)
@@ -376,7 +395,7 @@ func (h *bhist) opConfirm() {
 	h.run.Count("confirm-what", what+"/"+how)
 	h.run.Count("confirm-outcome", fmt.Sprint(c))
 	h.step(fmt.Sprintf("C06.BCnf %d %d 1 %d %s", v, n, idOf(h.addrIDs, lower(claimed)), spec), c,
-		map[string]any{"op": "confirm", "validator": v, "nonce": n, "eth_signer": claimed.Hex(), "signing_key": signerKey, "signed": what, "checkpoint": hex.EncodeToString(cp), "signature": sig})
+		map[string]any{"op": "confirm", "validator": v, "nonce": n, "eth_signer": written, "signing_key": signerKey, "signed": what, "checkpoint": hex.EncodeToString(cp), "signature": sig})
 }
 
 var bests = []uint64{1, 21000, 299999, 300000, 300001, 123456789}
@@ -428,7 +447,7 @@ func (h *bhist) opEndBlock() {
 		base := bests[r.Intn(len(bests))]
 		for _, v := range r.Perm(5)[:2+r.Intn(4)] {
 			_, _ = h.ms.EstimateBatchGas(h.ctx, &types.MsgEstimateBatchGas{
-				Nonce: n, TokenContract: h.token.GetAddress().Hex(), EthSigner: common.HexToAddress(h.regAddr[v]).Hex(), Estimate: base + uint64(r.Intn(3)),
+				Nonce: n, TokenContract: spell(r, h.token.GetAddress()), EthSigner: spell(r, common.HexToAddress(h.regAddr[v])), Estimate: base + uint64(r.Intn(3)),
 				Metadata: valsettypes.MsgMetadata{Creator: keeper.AccAddrs[v].String(), Signers: []string{keeper.AccAddrs[v].String()}},
 			})
 		}
@@ -499,9 +518,23 @@ func (h *bhist) opRemove() {
 // opRegister: a validator replaces its external account (new key), possibly with one another validator
 // holds now (collision) or held earlier (a key handed over while batches are open).
 func (h *bhist) opRegister(v, key int) {
+	h.registerAs(v, key, spell(h.run.Rng, h.keyAddr(key)))
+}
+
+// registerSpelled: form < 0 = checksummed.
+func (h *bhist) registerSpelled(v, key, form int) {
+	a := h.keyAddr(key)
+	if form < 0 {
+		h.registerAs(v, key, a.Hex())
+		return
+	}
+	h.registerAs(v, key, spellForm(a, form))
+}
+
+func (h *bhist) registerAs(v, key int, written string) {
 	a := h.keyAddr(key)
 	err := h.in.ValsetKeeper.AddExternalChainInfo(h.ctx, keeper.ValAddrs[v], []*valsettypes.ExternalChainInfo{
-		{ChainType: "evm", ChainReferenceID: chainName, Address: a.Hex(), Pubkey: a.Bytes()}})
+		{ChainType: "evm", ChainReferenceID: chainName, Address: written, Pubkey: a.Bytes()}})
 	c := int64(0)
 	switch {
 	case err == nil:
@@ -513,8 +546,8 @@ func (h *bhist) opRegister(v, key int) {
 	}
 	h.run.Count("op", "register")
 	h.run.Count("register-outcome", fmt.Sprint(c))
-	h.step(fmt.Sprintf("C06.BReg %d [(1, %d, %d)]", v, idOf(h.addrIDs, lower(a)), idOf(h.keyIDs, hex.EncodeToString(a.Bytes()))), c,
-		map[string]any{"op": "register", "validator": v, "key": key, "address": a.Hex()})
+	h.step(fmt.Sprintf("C06.BReg %d [(1, %d, %d, %d)]", v, idOf(h.strIDs, written), idOf(h.keyIDs, hex.EncodeToString(a.Bytes())), idOf(h.addrIDs, lower(a))), c,
+		map[string]any{"op": "register", "validator": v, "key": key, "address": written})
 }
 
 func (h *bhist) finish() {
